@@ -3,6 +3,7 @@ package main
 // C07 — stream framing is independent of how the transport chunks bytes.
 
 import (
+	"go/constant"
 	"go/token"
 	"go/types"
 	"strings"
@@ -155,6 +156,40 @@ func runC07(r *Run, verifDir string) {
 			}
 		}
 	}
+	// needCur: the value of `need` once an iteration has updated it. Normally the computeNeededBytes result itself; with
+	// a latch (`if !sized { need = computeNeededBytes(...); ...; sized = read >= 8 }`) the merge of the loop value and
+	// the fresh computation — the latch is validated below, once `read += n` is known.
+	needCur := needVal
+	var latch *ssa.Phi
+	if needPhi == nil {
+		for _, ref := range *needVal.Referrers() {
+			l, ok := ref.(*ssa.Phi)
+			if !ok {
+				continue
+			}
+			// every edge is the fresh computation or the loop value
+			var hp *ssa.Phi
+			shape := true
+			for _, e := range l.Edges {
+				if e == needVal {
+					continue
+				}
+				if ph, isPhi := e.(*ssa.Phi); isPhi && (hp == nil || hp == ph) && len(ph.Edges) == 2 {
+					hp = ph
+					continue
+				}
+				shape = false
+			}
+			if !shape || hp == nil {
+				continue
+			}
+			for j, he := range hp.Edges {
+				if k, ok := constIntVal(he); ok && k == 8 && hp.Edges[1-j] == ssa.Value(l) {
+					needPhi, latch, needCur = hp, l, l
+				}
+			}
+		}
+	}
 	if needPhi == nil {
 		r.Unk("C07.S1", "ttlv.Stream.Recv/need", fn.Pos(), "the `need` variable (phi of 8 and computeNeededBytes) not recognised")
 		return
@@ -173,7 +208,7 @@ func runC07(r *Run, verifDir string) {
 	switch {
 	case !ok:
 		r.Bad("C07.S1", "ttlv.Stream.Recv/decode-extent", unmarshalCall.Pos(), "the decoder is not handed a bounded slice")
-	case us.Low != nil || us.High != needVal:
+	case us.Low != nil || us.High != needCur:
 		r.Bad("C07.S1", "ttlv.Stream.Recv/decode-extent", unmarshalCall.Pos(), "the decoder is not handed exactly buf[:need]")
 	default:
 		r.OK("C07.S1", "ttlv.Stream.Recv/decode-extent", unmarshalCall.Pos(), "UnmarshalTTLV(buf[:need])")
@@ -205,12 +240,19 @@ func runC07(r *Run, verifDir string) {
 			r.OK("C07.S1", "ttlv.Stream.Recv/extent-source", needPos, "the extent is computed from buf[:read+n]")
 		}
 	}
+	if latch != nil {
+		if why := c07LatchSound(latch, needPhi, needVal, readNext, needBlock); why != "" {
+			r.Bad("C07.S1", "ttlv.Stream.Recv/extent-latch", latch.Pos(), "the announced extent is not recomputed after every read, and the flag that skips the computation is not a latch on a complete header (%s): a header that arrives in pieces leaves `need` at a stale value and the stream is desynchronised", why)
+		} else {
+			r.OK("C07.S1", "ttlv.Stream.Recv/extent-latch", latch.Pos(), "the extent computation is skipped only under a flag that starts false and is set, after a computation, to read+n >= 8: header bytes are not written again (Read is handed buf[read:need]), so the skipped computation would return the same value")
+		}
+	}
 	if readNext == nil {
 		r.Unk("C07.S2", "ttlv.Stream.Recv/complete", fn.Pos(), "`read += n` not recognised")
 	} else {
 		complete := false
 		for _, dc := range dominatingConds(unmarshalCall.Block()) {
-			if impliesGE(dc.cond, dc.outcome, readNext, needVal) {
+			if impliesGE(dc.cond, dc.outcome, readNext, needCur) {
 				complete = true
 			}
 		}
@@ -298,11 +340,11 @@ func runC07(r *Run, verifDir string) {
 			// normalise to `a OP b` with a = need or max
 			x, y, op := unspill(bo.X), unspill(bo.Y), bo.Op
 			mirror := map[token.Token]token.Token{token.LSS: token.GTR, token.LEQ: token.GEQ, token.GTR: token.LSS, token.GEQ: token.LEQ, token.EQL: token.EQL, token.NEQ: token.NEQ}
-			if (isMax(x) && y == needVal) || func() bool { _, isK := constIntVal(x); return isK && isMax(y) }() {
+			if (isMax(x) && (y == needVal || y == needCur)) || func() bool { _, isK := constIntVal(x); return isK && isMax(y) }() {
 				x, y, op = y, x, mirror[op]
 			}
 			switch {
-			case x == needVal && isMax(y):
+			case (x == needVal || x == needCur) && isMax(y):
 				// need OP max: the edge on which need <= max holds
 				switch op {
 				case token.GTR, token.GEQ:
@@ -570,7 +612,7 @@ func runC07(r *Run, verifDir string) {
 			}
 			thisOK := false
 			for _, f := range facts {
-				if impliesLT(f.cond, f.outcome, readNext, needVal) {
+				if impliesLT(f.cond, f.outcome, readNext, needCur) {
 					thisOK = true
 				}
 			}
@@ -665,4 +707,151 @@ func proveCap(v, need ssa.Value, blk *ssa.BasicBlock, extra []domCond, depth int
 		}
 	}
 	return false
+}
+
+// c07LatchSound validates `if !flag { need = computeNeededBytes(buf[:read+n]); ...; flag = read+n >= 8 }`: latch is
+// need' = phi(need, fresh). It returns "" when the edge that keeps the old value is taken only under a boolean loop
+// variable that is false on entry and whose every other source is `read+n >= 8` (or a constant true under that test)
+// evaluated in an iteration that computed the extent; otherwise the reason.
+func c07LatchSound(latch, needPhi *ssa.Phi, fresh ssa.Value, readNext *ssa.BinOp, freshBlock *ssa.BasicBlock) string {
+	if readNext == nil {
+		return "`read += n` not recognised"
+	}
+	hdr := needPhi.Block()
+	var flag *ssa.Phi
+	nSkip := 0
+	for iSkip, e := range latch.Edges {
+		if e != ssa.Value(needPhi) {
+			continue
+		}
+		nSkip++
+		pred := latch.Block().Preds[iSkip]
+		conds := dominatingConds(pred)
+		if cnd, isTrue, ok := edgeTaken(pred, latch.Block()); ok {
+			conds = append(conds, domCond{cnd, isTrue, pred})
+		}
+		var fl *ssa.Phi
+		for _, dc := range conds {
+			if !hdr.Dominates(dc.at) {
+				continue
+			}
+			c, want := dc.cond, dc.outcome
+			for {
+				if u, ok := c.(*ssa.UnOp); ok && u.Op == token.NOT {
+					c, want = u.X, !want
+					continue
+				}
+				break
+			}
+			if ph, ok := c.(*ssa.Phi); ok && want {
+				fl = ph
+			}
+		}
+		if fl == nil || (flag != nil && fl != flag) {
+			return "the skip is not controlled by one boolean variable being true"
+		}
+		flag = fl
+	}
+	if nSkip == 0 || flag == nil {
+		return "no edge keeps the previous value"
+	}
+	flagPhis := map[*ssa.Phi]bool{}
+	complete := func(v ssa.Value, at *ssa.BasicBlock, edge []domCond) bool {
+		hdrComplete := func(c ssa.Value, outcome bool) bool {
+			bo, ok := c.(*ssa.BinOp)
+			if !ok || (bo.X != ssa.Value(readNext) && bo.X != readNext.Y) { // read+n, or n alone (read >= 0)
+				return false
+			}
+			k, isK := constIntVal(bo.Y)
+			if !isK {
+				return false
+			}
+			switch {
+			case outcome && bo.Op == token.GEQ && k >= 8, outcome && bo.Op == token.GTR && k >= 7,
+				!outcome && bo.Op == token.LSS && k >= 8, !outcome && bo.Op == token.LEQ && k >= 7:
+				return true
+			}
+			return false
+		}
+		if hdrComplete(v, true) {
+			return true
+		}
+		if u, ok := v.(*ssa.UnOp); ok && u.Op == token.NOT && hdrComplete(u.X, false) {
+			return true
+		}
+		if k, ok := v.(*ssa.Const); ok && k.Value != nil && k.Value.Kind() == constant.Bool && constant.BoolVal(k.Value) {
+			for _, dc := range append(dominatingConds(at), edge...) {
+				if hdrComplete(dc.cond, dc.outcome) {
+					return true
+				}
+				// `flag || ...`: true because the flag already is
+				if ph, ok := dc.cond.(*ssa.Phi); ok && dc.outcome && hdr.Dominates(ph.Block()) && ph.Type() == flag.Type() && flagPhis[ph] {
+					return true
+				}
+			}
+		}
+		return false
+	}
+	seen := flagPhis
+	why := ""
+	nSet := 0
+	var walk func(ph *ssa.Phi)
+	walk = func(ph *ssa.Phi) {
+		if seen[ph] {
+			return
+		}
+		seen[ph] = true
+		for i, e := range ph.Edges {
+			pr := ph.Block().Preds[i]
+			if p2, ok := e.(*ssa.Phi); ok {
+				walk(p2)
+				continue
+			}
+			if k, ok := e.(*ssa.Const); ok && k.Value != nil && k.Value.Kind() == constant.Bool && !constant.BoolVal(k.Value) {
+				continue
+			}
+			at := pr
+			if in, ok := e.(ssa.Instruction); ok {
+				at = in.Block()
+			}
+			var edge []domCond
+			if cnd, isTrue, ok := edgeTaken(pr, ph.Block()); ok {
+				edge = append(edge, domCond{cnd, isTrue, pr})
+			}
+			switch {
+			case !complete(e, pr, edge):
+				why = "the flag is set from something other than read+n >= 8"
+			case !freshBlock.Dominates(at) && !latch.Block().Dominates(at):
+				// (after the merge is fine too: the flag was false when the iteration began, so the extent was computed)
+				why = "the flag is set in an iteration that did not compute the extent"
+			default:
+				nSet++
+			}
+		}
+	}
+	walk(flag)
+	if why == "" && nSet == 0 {
+		why = "the flag is never set"
+	}
+	if why == "" {
+		// the flag must be false on entry
+		entryFalse := false
+		for ph := range seen {
+			if ph.Block() != hdr {
+				continue
+			}
+			for i, e := range ph.Edges {
+				if hdr.Dominates(ph.Block().Preds[i]) {
+					continue
+				}
+				if k, ok := e.(*ssa.Const); ok && k.Value != nil && k.Value.Kind() == constant.Bool && !constant.BoolVal(k.Value) {
+					entryFalse = true
+				}
+			}
+		}
+		if !entryFalse {
+			why = "the flag is not false when the loop is entered"
+		}
+	}
+	return why
 }
